@@ -129,6 +129,7 @@ class ECue:
     self.paras = []
     self.region = None
     self.region_index = 0
+    self.p_count = 0        # number of active, associated, displayed p elements in the region(s) this cue stands for
 
 
 def round_ms(t):
@@ -161,12 +162,17 @@ def expected_cues(doc, spec, per_region):
       if nonempty > 1:
         for p in paras:
           p.flags.add("second-region")
+      npar = sum(1 for (n, _c) in sn.elements.values() if n["kind"] == "p")
       if per_region or not groups:
-        groups.append((sn, list(paras)))
+        groups.append([sn, list(paras), npar])
       else:
         groups[0][1].extend(paras)
-    for gi, (sn, paras) in enumerate(groups):
+        groups[0][2] += npar
+    if not per_region and groups:
+      groups[0][2] = sum(1 for x in snaps for (n, _c) in x.elements.values() if n["kind"] == "p")
+    for gi, (sn, paras, npar) in enumerate(groups):
       cue = ECue(t, end, end is None)
+      cue.p_count = npar
       cue.region = sn
       cue.region_index = gi
       cue.paras = paras
